@@ -306,7 +306,7 @@ func c18(c *core.Check) {
 	c18SubpathStart(c, r1)
 	c18CommandLetters(c, r1)
 	c18OpenAndRadii(c, r1)
-	r2 := c.Rule("R2", "references cannot be followed forever: <use> resolution (by id and by URL) and href inheritance between definitions are cycle-guarded at parse time, and while drawing, the content of a marker, clip path or mask is drawn only after the definition was recorded as being drawn (a reference to a definition in progress is skipped)", 6)
+	r2 := c.Rule("R2", "references cannot be followed forever: <use> resolution (by id and by URL) and href inheritance between definitions are cycle-guarded at parse time, and while drawing, the content of a marker, clip path or mask is drawn only after the definition was recorded as being drawn (a reference to a definition in progress is skipped)", 5)
 	if ru := p.Lookup("svg.(*svgContext).resolveUse"); ru == nil {
 		r2.Anchor("svg.(*svgContext).resolveUse")
 	} else {
@@ -373,7 +373,7 @@ func c18StoresField(fn *ssa.Function, dst, src string) bool {
 // c18Geometry folds the two closed-form geometry helpers of the path interpreter into polynomials.
 func c18Geometry(c *core.Check) {
 	p := c.Prog
-	r := c.Rule("R4", "path geometry in closed form: reflection(p, r) = 2p − r on both coordinates (the control point of a smooth segment), and quadraticToCubic elevates a quadratic Bézier exactly: CP1 = P0 + 2/3 (P1 − P0), CP2 = P2 + 2/3 (P1 − P2), end point P2; ellipsePointAt is c + R(θ)·(a cos η, b sin η) and ellipsePrime its derivative in η", 4)
+	r := c.Rule("R4", "path geometry in closed form: reflection(p, r) = 2p − r on both coordinates (the control point of a smooth segment), and quadraticToCubic elevates a quadratic Bézier exactly: CP1 = P0 + 2/3 (P1 − P0), CP2 = P2 + 2/3 (P1 − P2), end point P2; ellipsePointAt is c + R(θ)·(a cos η, b sin η) and ellipsePrime its derivative in η", 2)
 	sym := core.SymP
 	twoThird := core.PolyConst(big.NewRat(2, 3))
 	if fn := p.Fn("svg", "reflection"); fn == nil {
@@ -474,7 +474,7 @@ func c18Geometry(c *core.Check) {
 // c18Groups: a helper that is handed one argument group of a repeated command reads that group only.
 func c18Groups(c *core.Check) {
 	p := c.Prog
-	r := c.Rule("R7", "implicit repetition: a method of pathParser that receives the argument group of the current repetition as a parameter reads the coordinates through that parameter only — never through the parser's whole argument list, which would draw every repetition with the first group's values; and addSeg hands addArcFromA the list re-sliced at the loop index", 3)
+	r := c.Rule("R7", "implicit repetition: a method of pathParser that receives the argument group of the current repetition as a parameter reads the coordinates through that parameter only — never through the parser's whole argument list, which would draw every repetition with the first group's values; and addSeg hands addArcFromA the list re-sliced at the loop index", 1)
 	n := 0
 	for _, fn := range p.FuncsOfPkg("svg") {
 		if fn.Signature.Recv() == nil || len(fn.Params) < 2 || !strings.Contains(fn.Params[0].Type().String(), "pathParser") {
